@@ -1022,7 +1022,8 @@ fn drive_match(r: &mut Rng, n: usize, log: &mut Log) {
             let mut parts: Vec<String> = Vec::new();
             let l = dict_fit(r, 0).filter(|_| r.chance(1, 2)).unwrap_or_else(|| "en".to_string());
             let mut s1 = l.clone();
-            let mut s2 = if r.chance(2, 3) { l.clone() } else { "en".to_string() };
+            // the other side: the same language, another dictionary language (an alias table maps one code to another), or en
+            let mut s2 = match r.below(4) { 0 | 1 => l.clone(), 2 => dict_fit(r, 0).unwrap_or_else(|| "en".to_string()), _ => "en".to_string() };
             for kind in 1..4u8 {
                 let fallback = ["", "Latn", "US", "valencia"][kind as usize];
                 let w = dict_fit(r, kind).unwrap_or_else(|| fallback.to_string());
